@@ -785,7 +785,7 @@ class PathState:
         return v != "unsat"
 
     # -- obligations ----------------------------------------------------
-    def oblige(self, name, goal, assume_after=True, extra_pool=(), using=None):
+    def oblige(self, name, goal, assume_after=True, extra_pool=(), using=None, hide=None):
         """using: optional list of name prefixes; only quantified facts whose
         name starts with one of them are handed to the solver (hiding
         hypotheses is always sound and keeps queries small)."""
@@ -797,6 +797,12 @@ class PathState:
             qf = [q for q in self.qfacts if any(q.name.startswith(u) for u in using)]
             if self.pc_names:
                 pc = [h for h in self.pc if h.get_id() not in self.pc_names or any(self.pc_names[h.get_id()].startswith(u) for u in using)]
+        if hide:
+            # hide: ids of path-condition facts withheld from this obligation (e.g. the "frozen copy == parameter"
+            # equalities, when the goal is an identity of FUNCTIONS of the parameters)
+            pc_used = [h for h in self.pc if h.get_id() not in hide]
+        else:
+            pc_used = self.pc  # (named path-condition facts stay visible: only quantified facts are selected by `using`)
         z = as_bool(goal)
         z = z3.simplify(z)
         if z3.is_true(z):
@@ -804,7 +810,7 @@ class PathState:
             return
         is_canary = any(part.startswith("canary") for part in name.split("."))
         verdict, backend, dt, model, smt2 = prove(
-            self.pc, qf, z, extra_pool=list(self.pool) + list(extra_pool),
+            pc_used, qf, z, extra_pool=list(self.pool) + list(extra_pool),
             both=self.mode_both and not is_canary, quick=is_canary,
         )
         if verdict != "unsat" and self.sums and not is_canary:
@@ -814,7 +820,7 @@ class PathState:
             for scope in (z, None):
                 if T.close_sums(self, prove, goal=scope, budget_s=(None if scope is not None else 20)):
                     verdict, backend, dt2, model, smt2 = prove(
-                        self.pc, qf, z, extra_pool=list(self.pool) + list(extra_pool), both=self.mode_both)
+                        pc_used, qf, z, extra_pool=list(self.pool) + list(extra_pool), both=self.mode_both)
                     dt += dt2
                 if verdict == "unsat":
                     break
